@@ -19,7 +19,7 @@ use serde_json::json;
 use crate::report::{Run, Tier};
 use crate::sched::{children, run_threads, setup_hooks, Sched};
 use crate::sim::{tx_label, Replacement, TxName};
-use crate::tower::{user_keys, Api, Monitor, TowerCfg};
+use crate::tower::{user_keys, Monitor, TowerCfg};
 use crate::world::{Blob, Ev, MineSel, World};
 
 #[derive(Clone, Debug, PartialEq, Eq, serde::Serialize, serde::Deserialize)]
